@@ -378,7 +378,7 @@ def readLobj (cfg : Cfg) (classes : List Bytes) (fuel : Nat) (m : RMode) (o : Lb
             let objstart := tell s
             (if c = cls then readListenerBody cfg fuel s else readPrim cfg .u8 s).bind fun flag s =>
               brk (bracketOf m (tell s - objstart) (toInt64 (unle sb))) s
-                ((addAt cfg (unle ib) o s).bind fun _ s => .ok (.item (.object m o c [.prim .u8 flag])) s)
+                ((addAt cfg (unle ib) o s).bind fun _ s => .ok (.item (.object m o c [.prim .u8 (flag % 16)])) s)
 
 def readW (cfg : Cfg) (classes : List Bytes) (fuel : Nat) : List WSch → RS → Res (List WItem)
   | [], s => .ok [] s
